@@ -9,6 +9,12 @@ import SplModel.Generated.FormatConsts
 namespace C05
 open ExtraMeta Bytes
 
+/-- try the arm indices in turn -/
+macro "pick_arm" : tactic => `(tactic| first
+  | (refine ⟨0, ?_⟩; (first | (simp [*, Res.map]; done) | (simp_all [Res.map]; done))) | (refine ⟨1, ?_⟩; (first | (simp [*, Res.map]; done) | (simp_all [Res.map]; done)))
+  | (refine ⟨2, ?_⟩; (first | (simp [*, Res.map]; done) | (simp_all [Res.map]; done))) | (refine ⟨3, ?_⟩; (first | (simp [*, Res.map]; done) | (simp_all [Res.map]; done)))
+  | (refine ⟨4, ?_⟩; (first | (simp [*, Res.map]; done) | (simp_all [Res.map]; done))) | (refine ⟨5, ?_⟩; (first | (simp [*, Res.map]; done) | (simp_all [Res.map]; done))))
+
 /-- For every kind byte, the first arm of the source's `match` whose pattern/guard holds is an arm of
     the kind (0 fixed address, 1 PDA, 2 key from data, 3 rejected) that the model's `resolve` — the
     function `C05_fixed`, `C05_pda`, `C05_keydata`, `C05_unknown` characterise — dispatches to. -/
@@ -20,19 +26,20 @@ theorem C05_source_dispatch (x : UInt8) :
   have e0 : (x = 0) ↔ x.toNat = 0 := by rw [← UInt8.toNat_inj]; rfl
   have e1 : (x = 1) ↔ x.toNat = 1 := by rw [← UInt8.toNat_inj]; rfl
   have e2 : (x = 2) ↔ x.toNat = 2 := by rw [← UInt8.toNat_inj]; rfl
-  simp only [Gen.Format.resolveArmGuards, Gen.Format.resolveArmKinds, RX.firstArm, RX.armStep_ok, RX.eq, RX.ge, RX.cmp_ok, RX.lit_eq, RX.or_ok,
-    Gen.Format.U8_TOP_BIT, e0, e1, e2]
+  simp only [Gen.Format.resolveArmGuards, Gen.Format.resolveArmKinds, RX.firstArm, RX.armStep_ok, RX.eq, RX.ge, RX.le, RX.cmp_ok,
+    RX.lit_eq, RX.or_ok, RX.and_ok, Gen.Format.U8_TOP_BIT, e0, e1, e2]
+  -- one case per class of kind bytes; in each, whichever arm the source puts first is found by trying the
+  -- indices in turn, so the proof does not depend on the order or the number (≤ 6) of the arms
   by_cases h0 : x.toNat = 0
-  · exact ⟨0, by simp [h0]⟩
+  · pick_arm
   · by_cases h1 : x.toNat = 1
-    · exact ⟨1, by simp [h0, h1, Res.map]⟩
+    · pick_arm
     · by_cases h128 : x.toNat ≥ 128
-      · refine ⟨1, ?_⟩
-        have : ¬ x.toNat = 0 := h0
-        simp [h0, h1, h128, Res.map]
+      · have h255 : x.toNat ≤ 255 := by omega
+        have hn2 : ¬ x.toNat = 2 := by omega
+        pick_arm
       · by_cases h2 : x.toNat = 2
-        · exact ⟨2, by simp [h0, h1, h2, Res.map]⟩
-        · refine ⟨3, ?_⟩
-          simp [h0, h1, h128, h2, Res.map]
+        · pick_arm
+        · pick_arm
 
 end C05
